@@ -77,15 +77,16 @@ type PkgListObs struct {
 // ---- observations -----------------------------------------------------------------------------------
 
 type DiffItem struct {
-	Field string `json:"field"` // metadata values rawvalues schema lock templates files deps
-	Chart string `json:"chart"` // "" for the top chart, else dependency path a/b
-	Name  string `json:"name"`
-	Kind  string `json:"kind"`  // value content missing extra
-	Class string `json:"class"` // path class of the file in the abstract case, "base" otherwise
-	CC    string `json:"cc"`
-	BOM   bool   `json:"bom"`  // the loaded content is the original minus a leading UTF-8 BOM
-	Prov  bool   `json:"prov"` // lexical: the name is charts/....prov
-	Nest  int    `json:"nest"` // lexical: number of "charts" directory components in the name
+	Field  string `json:"field"` // metadata values rawvalues schema lock templates files deps
+	Chart  string `json:"chart"` // "" for the top chart, else dependency path a/b
+	Name   string `json:"name"`
+	Kind   string `json:"kind"`  // value content missing extra
+	Class  string `json:"class"` // path class of the file in the abstract case, "base" otherwise
+	CC     string `json:"cc"`
+	BOM    bool   `json:"bom"`    // the loaded content is the original minus a leading UTF-8 BOM
+	Prov   bool   `json:"prov"`   // lexical: the name is charts/....prov
+	Nest   int    `json:"nest"`   // lexical: number of "charts" directory components in the name
+	TplDot bool   `json:"tpldot"` // lexical: the name matches the default ignore rule templates/.?* (a dotfile directly in templates/)
 }
 
 type OpObs struct {
@@ -266,6 +267,9 @@ func (g *gen15) focusName(pc string) string {
 		return "." + rn
 	case "template":
 		return "templates/" + []string{rn + ".yaml", rn + ".tpl", "sub/" + rn + ".yaml", rn + ".txt", rn}[g.r.Intn(5)]
+	case "dotdotprefix": // begins with two dots but is not the parent directory: a valid name
+		return []string{".." + rn, "..data-" + rn + "/" + chartishName(g.r, nil), "templates/.." + rn + ".yaml", "files/.." + rn,
+			"..." + rn, ".." + rn + "/sub/" + chartishName(g.r, nil) + ".txt"}[g.r.Intn(6)]
 	case "dotdotname": // consecutive dots that are not a path element: a valid file name
 		return []string{"templates/v1..v2-" + rn + ".yaml", "docs/changes-1.0..2.0-" + rn + ".md", rn + "..bak", "files/a..b/" + rn,
 			"templates/" + rn + "...yaml", "docs/..." + rn}[g.r.Intn(6)]
@@ -511,6 +515,9 @@ func (g *gen15) diffFiles(field, depPath string, a, b []*chart.File, out *[]Diff
 		y, inB := bm[n]
 		it := DiffItem{Field: field, Chart: depPath, Name: n, Class: cl.pc, CC: cl.cc}
 		it.Prov = strings.HasPrefix(n, "charts/") && strings.HasSuffix(n, ".prov")
+		if rest := strings.TrimPrefix(n, "templates/."); rest != n && rest != "" && !strings.Contains(rest, "/") {
+			it.TplDot = true
+		}
 		parts := strings.Split(n, "/")
 		for _, p := range parts[:len(parts)-1] {
 			if p == "charts" {
